@@ -4,6 +4,7 @@
 #include <GeographicLib/Constants.hpp>
 #include <GeographicLib/Math.hpp>
 #include <GeographicLib/Utility.hpp>
+#include <GeographicLib/AuxLatitude.hpp>
 #include <algorithm>
 #include <cmath>
 #include <cstring>
@@ -222,6 +223,12 @@ namespace GeographicLib {
     static bool InZone(double lon0, double lon) {
       double dlon = Math::AngDiff(lon0, lon);
       return !(dlon > 60);
+    }
+    // AUX1: the conformal latitude is converted as if it were the geographic one
+    static AuxAngle Rect(const AuxLatitude& aux, const AuxAngle& phi1, const AuxAngle& chi1) {
+      AuxAngle mu1(aux.Convert(AuxLatitude::PHI, AuxLatitude::MU, phi1));
+      AuxAngle mu2(aux.Convert(AuxLatitude::PHI, AuxLatitude::MU, chi1));
+      return AuxAngle(mu1.y() + mu2.y(), mu1.x());
     }
     // CP1: the northing clause is a copy of the easting clause with one name left behind
     static double Pad(double easting, double northing, double scale) {
